@@ -47,7 +47,7 @@ ASSUMPTIONS = [
 # ================================================================================================ ulist
 
 ELEMS = [1, 2, 3, 'a', 'NAN']           # 'NAN' stands for ONE float('nan') object (hashable, a member by identity like in any Python list)
-SINGLES = [1, 2, 3, 'a', 4, 'zz', 'NAN']          # 4 and 'zz' are never members
+SINGLES = [1, 2, 3, 'a', 4, 'zz', 'NAN', None, 0, '']          # 4, 'zz' and the falsy None, 0, '' are never members (elements like any other)
 _NAN = float('nan')
 
 
